@@ -6,6 +6,7 @@ use std::panic::{catch_unwind, AssertUnwindSafe};
 
 mod sym;
 mod sm2;
+mod sm9;
 
 pub fn unhex(s: &str) -> Vec<u8> {
     if s == "-" {
@@ -55,6 +56,9 @@ fn dispatch(t: &[&str]) -> Option<Out> {
     if let Some(o) = sm2::dispatch(t) {
         return Some(o);
     }
+    if let Some(o) = sm9::dispatch(t) {
+        return Some(o);
+    }
     None
 }
 
@@ -65,6 +69,7 @@ fn main() {
         Some("dump") => {
             sym::dump();
             sm2::dump();
+            sm9::dump();
         }
         Some("run") => {
             let stdin = std::io::stdin();
